@@ -270,3 +270,65 @@ Proof.
       eapply (mi_wait_ev cfg e s0 resp n ret dl from bc bytes d fid); [exact Ec|reflexivity|].
       exists s', None, o. split; [exact E1|]. split; reflexivity.
 Qed.
+
+Lemma in_fuel_app_r : forall (a b : list oobs), In OOutOfFuel b -> In OOutOfFuel (a ++ b).
+Proof. intros. apply in_or_app. right. assumption. Qed.
+
+Theorem ostep_micros : forall cfg s ev a s' o,
+  ostep cfg s ev a = (s', o) ->
+  exists s1, micros cfg (Some ev) s o s1 /\
+             (s' = s1 \/ exists t, s' = upd_now s1 t /\ (In OOutOfFuel o \/ quiet_until cfg s1 t)).
+Proof.
+  intros cfg s ev a s' o H. unfold ostep in H.
+  set (e := Some ev).
+  set (s0 := upd_answers s a) in *.
+  assert (M0 : micro cfg e s [] s0) by (apply mi_skip; reflexivity).
+  destruct ev as [from bc bytes d|ms| |sel op|v|].
+  - destruct (on_rx cfg s0 from bc bytes d) as [s1 o1] eqn:E1.
+    destruct (advance 64 cfg s1 (s_now s1 + settle_ms)) as [s2 o2] eqn:E2. inv_pair H.
+    apply on_rx_micros in E1. apply (advance_micros cfg e) in E2. destruct E2 as (s3 & Hm & Hs & Hq).
+    exists s3. split.
+    + eapply ms_cons; [exact M0|eapply ms_app; [exact E1|exact Hm|reflexivity]|reflexivity].
+    + right. eexists. split; [exact Hs|]. destruct Hq as [Hq|Hq]; [left; apply in_fuel_app_r; exact Hq|right; exact Hq].
+  - apply (advance_micros cfg e) in H. destruct H as (s3 & Hm & Hs & Hq).
+    exists s3. split; [eapply ms_cons; [exact M0|exact Hm|reflexivity]|].
+    right. eexists. split; [exact Hs|exact Hq].
+  - change (s_control s0) with (s_control s) in H.
+    assert (Hfirst : exists s1 o1 s2 o2, micros cfg e s0 o1 s1 /\ advance 64 cfg s1 (s_now s1 + settle_ms) = (s2, o2) /\
+                                         s' = s2 /\ o = o1 ++ o2).
+    { destruct (s_control s) eqn:Ec.
+      - destruct (idle_loop 8 cfg s0) as [s1 o1] eqn:E1.
+        destruct (advance 64 cfg s1 (s_now s1 + settle_ms)) as [s2 o2] eqn:E2. inv_pair H.
+        exists s1, o1, s', o2. split; [eapply idle_loop_micros; [|exact E1]; exact Ec|]. repeat split; auto.
+      - destruct (advance 64 cfg (upd_notify s0 true) (s_now (upd_notify s0 true) + settle_ms)) as [s2 o2] eqn:E2.
+        inv_pair H. exists (upd_notify s0 true), [], s', o2.
+        split; [apply ms_one; apply mi_skip; reflexivity|]. repeat split; auto.
+      - destruct (advance 64 cfg (upd_notify s0 true) (s_now (upd_notify s0 true) + settle_ms)) as [s2 o2] eqn:E2.
+        inv_pair H. exists (upd_notify s0 true), [], s', o2.
+        split; [apply ms_one; apply mi_skip; reflexivity|]. repeat split; auto. }
+    destruct Hfirst as (s1 & o1 & s2 & o2 & Hm1 & E2 & -> & ->).
+    apply (advance_micros cfg e) in E2. destruct E2 as (s3 & Hm & Hs & Hq).
+    exists s3. split.
+    + eapply ms_cons; [exact M0|eapply ms_app; [exact Hm1|exact Hm|reflexivity]|reflexivity].
+    + right. eexists. split; [exact Hs|]. destruct Hq as [Hq|Hq]; [left; apply in_fuel_app_r; exact Hq|right; exact Hq].
+  - inv_pair H. exists (upd_knobs s0 sel op (s_app_iin s0)). split; [|left; reflexivity].
+    eapply ms_cons; [exact M0|apply ms_one; apply mi_skip; reflexivity|reflexivity].
+  - inv_pair H. exists (upd_knobs s0 (s_sel_status s0) (s_op_status s0) v). split; [|left; reflexivity].
+    eapply ms_cons; [exact M0|apply ms_one; apply mi_skip; reflexivity|reflexivity].
+  - set (s1 := upd_pending (upd_control (session_reset s0) CIdle) None) in H.
+    destruct (idle_loop 8 cfg s1) as [s2 o2] eqn:E2.
+    destruct (advance 64 cfg s2 (s_now s2 + settle_ms)) as [s3 o3] eqn:E3. inv_pair H.
+    apply (idle_loop_micros cfg e) in E2; [|reflexivity].
+    apply (advance_micros cfg e) in E3. destruct E3 as (s4 & Hm & Hs & Hq).
+    exists s4. split.
+    + eapply ms_cons; [exact M0| |reflexivity].
+      eapply (ms_cons cfg e s0 [ODb DbReset; OSessionEnd] s1); [apply mi_disconnect; reflexivity| |reflexivity].
+      eapply ms_app; [exact E2|exact Hm|reflexivity].
+    + right. eexists. split; [exact Hs|].
+      destruct Hq as [Hq|Hq]; [left; right; right; apply in_fuel_app_r; exact Hq|right; exact Hq].
+Qed.
+
+Theorem ostart_micros : forall cfg sel op iin a s' o,
+  ostart cfg sel op iin a = (s', o) ->
+  micros cfg None (upd_answers (ostate_init cfg sel op iin) a) o s'.
+Proof. intros. eapply idle_loop_micros; [|exact H]. reflexivity. Qed.
